@@ -70,6 +70,18 @@ def cfg_all(modes, without=(), names=None, split=None) -> Config:
     return cfg
 
 
+def add_sorted(cfg: Config, decl, k: int) -> Config:
+    """request the compile-time `sorted` check where the declaration satisfies it (it must
+    not change anything else)"""
+    vals = [v.value for v in decl.variants]
+    names = [v.name.encode() for v in decl.variants]
+    if k % 2 == 0 and all(a < b for a, b in zip(vals, vals[1:])):
+        cfg.sorted_value = True
+    if k % 3 != 1 and all(a < b for a, b in zip(names, names[1:])):
+        cfg.sorted_name = True
+    return cfg
+
+
 def legalize(cfg: Config, decl) -> Config:
     """drop what the documentation forbids for this enum (keeps the rest)"""
     if cfg.has("iter") and cfg.mode("iter") == "range" and not decl.gapless():
@@ -117,6 +129,7 @@ def catalogue_cases(ids: IdGen, tier: str):
             t = tuples[(si * 7 + ri * 13) % len(tuples)]
             cfg = legalize(cfg_all(t, names=CUSTOM_NAMES if (si + ri) % 5 == 0 else None,
                                    split=[3, 5, 4] if (si + ri) % 3 == 0 else None), d)
+            add_sorted(cfg, d, si + ri)
             cases.append(Case(ids.next(), d, cfg, "plain", {"part": "catalogue"}))
             if tier != "quick" or (si + ri) % 2 == 0:
                 # the same declaration under a second, explicit mode tuple with range()
@@ -271,6 +284,7 @@ def c18_cases(ids: IdGen, tier: str):
                 from .spec import make_decl
                 d = make_decl(r, items, shape="c18_%02d" % si)
                 cfg = legalize(cfg_all(t), d)
+                add_sorted(cfg, d, oi + si)
                 c = Case(ids.next(), d, cfg, "plain", {"part": "c18", "c18": group},
                          probe_lo=lo, probe_hi=hi)
                 cases.append(c)
@@ -393,6 +407,7 @@ def random_cases(ids: IdGen, tier: str, seed: int):
         r = REPR_ORDER[(i + seed) % len(REPR_ORDER)] if i < 24 else rng.choice(REPR_ORDER)
         d = shapes.random_decl(r, rng, max_n=24 if rng.random() < 0.9 else 90)
         cfg = random_config(d, rng)
+        add_sorted(cfg, d, i)
         ctx = rng.choice(["plain", "plain", "noprelude", "hostile", "nostd"])
         cases.append(Case(ids.next(), d, cfg, ctx, {"part": "random"}))
     return cases
